@@ -170,8 +170,35 @@ def gen_case(rng, k, tier):
             "dprec": dprec, "kind": kind, "zmode": zmode, "scaled": scale, "save_first": save_first}
 
 
+# a small unrelated NPD file: loading it gives an object a format ("Sma"), a file type and precisions of its own
+OTHER_NPD = ("#NPD\n#:version 1.0\n#:ports 1\n#:frequencies 1\n#:parameters Sma\n#:z0 75 +0j\n#:fprecision 5\n#:dprecision 4\n"
+             "1e9 0.5 +30.0\n")
+
+
+def history_cmds(c):
+    """Commands that bring slot 0 into the state c["obj"] through a HISTORY (format set then cleared, conversion into a
+    second object, objects that were loaded or saved before); the data are carried exactly (same-type conversion = copy).
+    The last command dumps slot 0.  After any of these histories the object to be saved has NO format of its own."""
+    o, h, stale = c["obj"], c["history"], c["stale"]
+    t = D.TYPE_ID[o.type]
+    other = OTHER_NPD.encode("latin-1").hex()
+    if h == "conv_copy":              # A: format set, cleared; B = vnadata_convert(A, B, same type)
+        cmds = o.cmds(2) + ["format 2 %s" % stale, "format 2 -", "convert 2 0 %d" % t]
+    elif h == "conv_chain":           # carried through two objects
+        cmds = o.cmds(2) + ["format 2 %s" % stale, "format 2 -", "convert 2 3 %d" % t, "convert 3 0 %d" % t]
+    elif h == "conv_into_loaded":     # B was loaded from a file before (has a format of its own), then receives A
+        cmds = ["new 0 -1 0 0 0", "load 0 other.npd %s" % other] + o.cmds(2) + ["format 2 %s" % stale, "format 2 -",
+                                                                                  "convert 2 0 %d" % t]
+    elif h == "conv_into_saved":      # B held the data and was saved with a format before, then receives A
+        cmds = o.cmds(0) + ["format 0 %s" % stale, "save 0 earlier.npd"] + o.cmds(2) + ["format 2 %s" % stale, "format 2 -",
+                                                                                         "convert 2 0 %d" % t]
+    else:                             # saved_before: the object itself was saved with another format earlier
+        cmds = o.cmds(0) + ["format 0 %s" % stale, "save 0 earlier.npd", "format 0 -"]
+    return cmds + ["dump 0"]
+
+
 def case_cmds(c):
-    cmds = c["obj"].cmds(0)
+    cmds = history_cmds(c) if c.get("history") else c["obj"].cmds(0)
     if c["setft"] is not None:
         cmds.append("filetype 0 %d" % c["setft"])
     if c["format"] is not None:
@@ -287,6 +314,24 @@ def load_tolerance(p, form, x_scale_db=0.0):
 def evaluate(ctx, c, lines, stats):
     """Returns None or (sig, what)."""
     o = c["obj"]
+    if c.get("history"):
+        n = len(history_cmds(c))
+        pre, lines = lines[:n], lines[n:]
+        if len(pre) < n or any(l.startswith("FAULT") for l in pre):
+            return None
+        if any(l.split()[1] != "0" for l in pre if l.split()[0] in ("SET", "NEW", "LOAD", "SAVE")):
+            stats["setter_refused"] += 1          # the stale format is not one vnadata_set_format takes: no history
+            return None
+        before = D.parse_dump(pre[-1])
+        if before is None or not D.obj_equal(before, o):
+            return ({"kind": "history", "class": "object", "history": c["history"]},
+                    "history %s: the object to be saved is not the one that was built (type %s %dx%d)"
+                    % (c["history"], o.type, o.rows, o.cols))
+        if before.meta["format"] != "-":
+            # reported only when the file itself shows nothing (the written forms are judged first, below)
+            c["_stale"] = ({"kind": "history", "class": "stale_format", "history": c["history"]},
+                    "history %s (format %s set, then cleared with vnadata_set_format(NULL)): the object to be saved reports the "
+                    "format %r, it has none" % (c["history"], c["stale"], before.meta["format"]))
     it = iter(lines)
     got = {}
     for ln in lines:
@@ -316,7 +361,7 @@ def evaluate(ctx, c, lines, stats):
             return ({"kind": "refusal_report", "errno": ck[2]},
                     "save refused with errno %s and %s error reports" % (ck[2], ck[3]))
         stats["refused"] += 1
-        return None
+        return c.get("_stale")
     stats["accepted"] += 1
     text = bytes.fromhex(sv[6]).decode("latin-1") if sv[6] != "-" else ""
     ft = sniff(text)
@@ -360,7 +405,7 @@ def evaluate(ctx, c, lines, stats):
     except Bad as e:
         return ({"kind": "load_result", "class": e.cls, "filetype": ft}, "%s %s (type %s %dx%d z0 %s, format %s, precisions %d/%d): %s"
                 % (ft, c["name"], o.type, o.rows, o.cols, c["zmode"], c["format"], fp, p, e))
-    return None
+    return c.get("_stale")
 
 
 def check_freq(tok, parsed, f, fp):
@@ -593,8 +638,9 @@ def run(ctx):
         "hand-written models coq/Files/NumFmtModel.v, NpdScan.v, SaveModel.v, SaveEmit.v (+ the loader models TsTok.v / TsParse.v of C08), "
         "tied on every run to the compiled code (harness/datafiles_num.c includes vnadata_save.c; field counts, acceptance and the "
         "token stream of the written file through harness/datafiles_harness.c)",
-        "section hypotheses of load_save_id_touchstone2: strtod of print_value's / the angle's text is rd (ptext_word, atext_word), "
-        "strtol reads %d back (itext_int), sign kept (rd_sign), rd = identity at MAX / >= 17 digits (num_rt)",
+        "section hypotheses of load_save_id_touchstone1/2 and load_save_id_npd: strtod of print_value's / the angle's text is rd "
+        "(ptext_word, atext_word, ptext_field, atext_field), strtol reads %d back (itext_int, itext_field), sign kept (rd_sign), a printed "
+        "number holds no NUL and does not begin with '#' (ptext_cstr, ptext_nohash), rd = identity at MAX / >= 17 digits (num_rt)",
         "independent reader and conversion oracle lib/datafiles.py (Python, from the format descriptions / port relations)",
         "gcc, ASan/UBSan/LSan, allocation interposer harness/allocwrap.c",
     ]
@@ -604,7 +650,7 @@ def run(ctx):
                 "re-loaded; distinct non-trivial = accepted configurations by (type, ports, file type, format list, z0 mode, precision)")
     ok, res = ctx.coq_obligations(["Files/NumFmtModel.v", "Files/NumFmtProofs.v", "Files/NpdScan.v", "Files/NpdScanProofs.v",
                                    "Files/SaveModel.v", "Files/SaveProofs.v", "Files/SaveEmit.v", "Files/SaveEmitTie.v",
-                                   "Files/SaveTsLemmas.v", "Files/SaveEmitProofs.v", "Files/SaveEmitExamples.v", "Properties_C06.v"])
+                                   "Files/SaveTsLemmas.v", "Files/SaveEmitProofs.v", "Files/SaveNpdProofs.v", "Files/SaveEmitExamples.v", "Properties_C06.v"])
     broken = []
     if not ok:
         broken.append("Coq development of C06 does not build: " + getattr(ctx, "_last_coq_log", "")[-400:])
@@ -612,6 +658,7 @@ def run(ctx):
     n = 700 if ctx.tier == "quick" else 6000
     cases = [gen_case(ctx.rng, k, ctx.tier) for k in range(n)]
     cases += directed_cases()
+    cases += [gen_history_case(ctx.rng, k) for k in range(48 if ctx.tier == "quick" else 400)]
     stats = {"accepted": 0, "refused": 0, "setter_refused": 0, "by_kind": {}}
     results, faults = H.run([(c["id"], case_cmds(c)) for c in cases], timeout=1500)
     byid = dict((c["id"], c) for c in cases)
@@ -654,7 +701,7 @@ def run(ctx):
     if stats["accepted"] < n // 4:
         ctx.obligation("tie:coverage", False, "only %d of %d configurations were accepted by the saver" % (stats["accepted"], n))
     # ---- ties of the Coq models
-    c06_ties.run(ctx, H, broken, cases, results, expected_filetype)
+    c06_ties.run(ctx, H, broken, [c for c in cases if not c.get("history")], results, expected_filetype)
     for b in broken:
         ctx.unproved("C06", b, "round-trip search over %d configurations" % n)
 
@@ -664,6 +711,22 @@ def describe(c):
     return {"type": o.type, "rows": o.rows, "cols": o.cols, "frequencies": o.freqs, "z0": repr(o.z0 if o.fz0 is None else o.fz0),
             "data": repr(o.data), "file": c["name"], "set_filetype": c["setft"], "format": c["format"],
             "fprecision": c["fprec"], "dprecision": c["dprec"]}
+
+
+def gen_history_case(rng, k):
+    """A configuration whose object reaches the saver through a history (see history_cmds)."""
+    c = gen_case(rng, 400 + k, "quick")
+    o = c["obj"]
+    c["id"] = "h%d" % k
+    c["history"] = ["conv_copy", "conv_chain", "conv_into_loaded", "conv_into_saved", "saved_before"][k % 5]
+    if o.type == "ZIN":
+        c["stale"] = rng.choice(["Zinma", "PRC,Zinri", "SRL"])
+    else:
+        c["stale"] = rng.choice(["Zma", "SdB,Zri", "Yri", "Sma,IL", "Zri,Yma,Sri"] + (["Tma", "Hri,Ama"] if o.ports == 2 else []))
+    if rng.random() < 0.7:
+        c["format"] = None            # saved without a format of its own: the default form of its own type
+    c["save_first"] = rng.random() < 0.5
+    return c
 
 
 def directed_cases():
